@@ -11,7 +11,7 @@ From Anthem Require Import Base.ISet Syntax.Fol Syntax.Asp Sem.Domain Sem.Sat Se
   Model.Tightness Model.PrivRec Model.TauStar Model.Completion Model.SimplIntuit Model.SimplClassic
   Model.StrategyCls Model.ExternalFull
   Proofs.ExtendAll Proofs.SemBase Proofs.DecomposeOk Proofs.StrongOk Proofs.ExternalOk Proofs.AssemblyOk
-  Proofs.RenameOk Proofs.C02Ok
+  Proofs.RenameOk Proofs.C19Ext Proofs.C02Ok
   Proofs.TauStarClassical Proofs.CompletionShape Proofs.CompletionOk Proofs.FagesBridge Proofs.FagesTauStar
   Proofs.PlaceholderOk Proofs.StrategyClsOk Proofs.SimplFull.
 Import ListNotations.
@@ -191,7 +191,7 @@ Theorem C02_full_proof t L w pbs lft rgt :
   external_decompose_full fuel t = XOk w pbs ->
   is_tight L = true -> is_tight (et_program t) = true ->
   tl t L = Some lft -> tr t = Some rgt ->
-  (forall uga, validated_no_clash (mkvalidated lft rgt uga empty_outline (et_decomposition t) (et_direction t) (et_break t))) ->
+  (forall vt, task_validated tau_star_total completion (simp_classic_total fuel) t = Some vt -> validated_no_clash vt) ->
   forall FI M,
     tvalid FI M (map (fun a => rp_formula (task_placeholders t) (an_formula a)) (filter is_assumption (ug_formulas (et_user_guide t)))) ->
     tvalid FI M (assumptions_of lft) -> tvalid FI M (assumptions_of rgt) ->
